@@ -178,6 +178,72 @@ fn tails_sub(carrier: Carrier) -> Vec<Sub> {
     subs
 }
 
+/// whole base64 blocks (4 bytes) that contain non-ASCII characters: every 2-, 3- and 4-byte UTF-8 character, padded to
+/// 4 bytes with alphabet characters in every position (and, for 2-byte characters, paired with every other 2-byte
+/// character); as the only block and as a block followed by "AAAA". A decoder that maps bytes >= 0x80 onto alphabet
+/// characters accepts some of them.
+fn non_ascii_blocks_sub(carrier: Carrier) -> Sub {
+    const PAD: [char; 6] = ['A', 'a', '0', '-', '_', 'z'];
+    // indices: 0..1920 one 2-byte character each; then 3-byte characters in chunks of 256; then 4-byte in chunks of 4096
+    let n2 = 0x800 - 0x80;
+    let n3 = (0x10000 - 0x800 - 0x800) / 256; // surrogates excluded
+    let n4 = (0x110000 - 0x10000) / 4096;
+    Sub::new(
+        format!("blocks-non-ascii/{carrier:?}"),
+        (n2 + n3 + n4) as u64,
+        "every 4-byte block that contains a non-ASCII character: each 2-byte character x (two alphabet characters from {A, a, 0, -, _, z} in every arrangement, and every other 2-byte character), each 3-byte character x one alphabet character before / after, each 4-byte character; as the whole body and followed by a further block",
+        move |idx, describe| {
+            let mut o = Outcome::new();
+            o.evals = 0;
+            let idx = idx as u32;
+            let pre = &prefixes(carrier)[0];
+            let mut offer = |o: &mut Outcome, block: String| {
+                debug_assert_eq!(block.len(), 4);
+                check_tail(o, carrier, pre, &block);
+                check_tail(o, carrier, pre, &format!("{block}AAAA"));
+            };
+            if idx < n2 {
+                let c = char::from_u32(0x80 + idx).unwrap();
+                for a in PAD {
+                    for b in PAD {
+                        offer(&mut o, format!("{c}{a}{b}"));
+                        offer(&mut o, format!("{a}{c}{b}"));
+                        offer(&mut o, format!("{a}{b}{c}"));
+                    }
+                }
+                for d in 0x80..0x800u32 {
+                    offer(&mut o, format!("{c}{}", char::from_u32(d).unwrap()));
+                }
+            } else if idx < n2 + n3 {
+                let chunk = idx - n2;
+                for k in 0..256u32 {
+                    let mut cp = 0x800 + chunk * 256 + k;
+                    if cp >= 0xD800 {
+                        cp += 0x800;
+                    }
+                    let Some(c) = char::from_u32(cp) else { continue };
+                    for a in PAD {
+                        offer(&mut o, format!("{c}{a}"));
+                        offer(&mut o, format!("{a}{c}"));
+                    }
+                }
+            } else {
+                let chunk = idx - n2 - n3;
+                for k in 0..4096u32 {
+                    if let Some(c) = char::from_u32(0x10000 + chunk * 4096 + k) {
+                        offer(&mut o, c.to_string());
+                    }
+                }
+            }
+            o.nontrivial = o.evals;
+            if describe {
+                o.sample = Some(json!({"carrier": format!("{carrier:?}"), "index": idx}));
+            }
+            o
+        },
+    )
+}
+
 const NOTABLE: &[u8] = b"ABCDEFGHIJKLMNOPQRSTUVWXYZabcdefghijklmnopqrstuvwxyz0123456789-_=+/. \n";
 
 fn tails4_sub(carrier: Carrier, thorough: bool) -> Sub {
@@ -466,6 +532,9 @@ pub fn build(ctx: &Ctx) -> Property {
     }
     for c in if ctx.thorough() { CARRIERS.to_vec() } else { vec![Carrier::KeyText, Carrier::KeyId] } {
         p.subs.push(tails4_sub(c, ctx.thorough()));
+    }
+    for c in [Carrier::KeyText, Carrier::TokenPayload] {
+        p.subs.push(non_ascii_blocks_sub(c));
     }
     p.subs.extend(encode_sub(ctx.thorough()));
     p.subs.push(parsers_sub(ctx));
